@@ -7,7 +7,7 @@ import Proofs.StdNoPanic
 start line, environment, file system and fuel, it never ends in `panic` — provided the value
 layer (`Prims`: comparison and filters; `OutPrims`: printing) never panics, which is proved
 separately for the standard configuration layer by layer (C09 `ops_no_panic` for the
-comparison operators; see `stdPrims_noPanic_partial` for what is assembled here).
+comparison operators; see `std_noPanic` (`Proofs/StdNoPanic.lean`) for what is assembled here).
 Termination: every definition of the model is accepted by Lean's structural/well-founded
 checker (no `partial`), `include` recursion is bounded by explicit fuel.
 -/
